@@ -1,4 +1,5 @@
 """C07 — configured peer authentication is enforced (SOCKS credentials part)."""
+import harness
 from specs import replies, codec
 
 
